@@ -21,6 +21,7 @@ exception / other error / TApplicationException.
     conclusion (each caller's outcome, handler log and own request / reply bytes are the model's for the call made alone).
 """
 import collections
+import json
 import struct
 import threading
 import time
@@ -336,6 +337,13 @@ def plan_session(rng, P, cfn, csvc, sfn, ssvc, transport, proto, per_method, tam
     served = {wire_name(m) for _, _, m in L.service_methods(p, sfn, ssvc)}
     elig = [i for i, c in enumerate(calls) if not c.m["oneway"] and not c.unwritable and c.tamper is None
             and c.desc[0] in ("ret", "exc") and wire_name(c.m) in served]
+    if proto == "json":
+        # Apache Thrift's JSON reader splits NaN / Infinity tokens at a 4096-byte boundary (known finding, third party):
+        # alone such a call fails with a recognisable PROTOCOL_ERROR; in a burst the undecodable request makes the
+        # server stop serving the shared connection and the OTHER calls time out. Calls carrying such doubles stay
+        # out of JSON bursts (they are judged one at a time above).
+        special = re.compile(r'"[7f]ff[0-9a-f]{13}"')
+        elig = [i for i in elig if not special.search(json.dumps(reqs[i]))]
     if len(elig) >= 2 and not tamper:
         rng.shuffle(elig)
         req["burst"] = elig[:12]
